@@ -294,7 +294,7 @@ def _try_cvc5(solver, timeout_ms):
             name = f.name
         try:
             out = subprocess.run(
-                ["/usr/bin/cvc5", "--tlimit=%d" % timeout_ms, "--nl-ext-tplanes", name], capture_output=True, text=True, timeout=timeout_ms / 1000 + 5
+                ["/usr/bin/cvc5", "--tlimit=%d" % timeout_ms, "--nl-ext-tplanes", "--strings-exp", name], capture_output=True, text=True, timeout=timeout_ms / 1000 + 5
             ).stdout.strip()
         finally:
             os.unlink(name)
